@@ -133,8 +133,8 @@ def run(m: Model, r: Report, tier: str) -> None:
         raise AnalysisError(f"{fn.qualname}: probe try-block not found")
     T = tries[0]
     ifs = [s for s in T.body if isinstance(s, ast.If)]
-    t0 = m.mtext(fn, ifs[0].test).replace(" ", "") if ifs else ""
-    r.check(len(ifs) >= 3 and t0 == "isinstance(_L,NegativeResponse)and_L.response_code==UDSErrorCodes.subFunctionNotSupported" and
+    t0 = m.mtext(fn, ifs[0].test) if ifs else ""
+    r.check(len(ifs) >= 3 and t0 == m.mpat(fn, "isinstance(resp, NegativeResponse) and resp.response_code == UDSErrorCodes.subFunctionNotSupported") and
             isinstance(ifs[0].body[-1], ast.Continue) and ".append" not in ast.unparse(ifs[0]), "R4", f"{fn.qualname}#not-available",
             f"first classification is `{ast.unparse(ifs[0].test) if ifs else None}`: only subFunctionNotSupported may be discarded as 'not available'", loc=fn.loc)
     r.check(len(ifs) >= 2 and m.mtext(fn, ifs[1].test) == "isinstance(_L, NegativeResponse)" and ".append({'session':" in ast.unparse(ifs[1]) and "'error': " in ast.unparse(ifs[1]) and
@@ -184,7 +184,8 @@ def run(m: Model, r: Report, tier: str) -> None:
         nifs = [x for x in neg_loops[0].body if isinstance(x, ast.If)]
         if len(nifs) == 1:
             conj = nifs[0].test.values if isinstance(nifs[0].test, ast.BoolOp) and isinstance(nifs[0].test.op, ast.And) else [nifs[0].test]
-            codes = [ast.unparse(c.comparators[0]) for c in conj if isinstance(c, ast.Compare) and len(c.ops) == 1 and isinstance(c.ops[0], ast.NotEq) and "['error']" in ast.unparse(c.left)]
+            codes = [ast.unparse(x) for c in conj if isinstance(c, ast.Compare) and len(c.ops) == 1 and isinstance(c.ops[0], ast.NotEq) and "['error']" in ast.unparse(c)
+                     for x in (c.left, c.comparators[0]) if "['error']" not in ast.unparse(x)]
             memb = [c for c in conj if isinstance(c, ast.Compare) and len(c.ops) == 1 and isinstance(c.ops[0], ast.NotIn)]
             detail_n = f"filter is `{ast.unparse(nifs[0].test)}`"
             okn = codes == ["UDSErrorCodes.subFunctionNotSupportedInActiveSession"] and len(memb) == 1 and len(conj) == 2
